@@ -223,9 +223,9 @@ def r_route(c):
                             getattr(s, "_parent", None), (ast.ClassDef, ast.If)):
                         visit(mi, s, None)
     c.units["functions_scanned"] = n_funcs
-    if n_cmp < 12:
+    if n_cmp < 8:
         raise AnalysisError(f"only {n_cmp} comparisons on shape-typed operands found "
-                            "(floor 12): shape typing broken")
+                            "(floor 8): shape typing broken")
 
 
 def r_decision(c):
@@ -461,7 +461,8 @@ def r_intclass(c):
 SPEC = Spec(
     prop="C16",
     rules=[r_route, r_decision, r_bindnames, r_broadcast, r_state, r_intclass],
-    floors={"R16-ROUTE": 12, "R16-DECISION": 13, "R16-BINDNAMES": 3, "R16-BROADCAST": 8, "R16-STATE": 1, "R16-INTCLASS": 1},
+    floors={"R16-ROUTE": 12, "R16-DECISION": 9, "R16-BINDNAMES": 2, "R16-BROADCAST": 7,
+            "R16-STATE": 1, "R16-INTCLASS": 1},
     explanation=(
         "R16-ROUTE (who-may-compare): local shape typing (X.shape / newshape, "
         "subscripts and slices of it, variables assigned from it, parameters and "
